@@ -223,19 +223,19 @@ def run_c05(tier, seed):
     for r, v in want.items():
         if x[r] != v:
             viol.append({"key": "C05:documented-example:x%d" % r, "what": "documented example: x%d = %d, expected %d" % (r, x[r], v), "text": DOC_EXAMPLE})
-    for it in range(1200 if tier == "quick" else 30000):
-        data = gen_data(rnd, rnd.randint(1, 5))
-        d = rnd.choice(data)
-        idx = rnd.choice([None, 0, rnd.randint(0, n_elems(d) - 1)])
-        c = rnd.choice([0, 2047, 2048, -2048, -2049, 0x7FFFF800, 0x80000000, 0xFFFFFFFF, 0xFFFFF800, rnd.randint(-2 ** 31, 2 ** 32 - 1),
-                        (rnd.randint(0, 2 ** 20 - 1) << 12) | rnd.choice([0, 0x7FF, 0x800, 0xFFF, rnd.randint(0, 4095)])])
-        mn = rnd.choice(LOAD)
-        items = [Item("la", rd=5, var=d.name, idx=idx), Item("ldv", mn=mn, rd=6, var=d.name, idx=idx), Item("li", rd=7, c=c)]
-        prog = Program(items, data, data_first=rnd.random() < 0.5, use_text_directive=True)
+    def case(data, d, idx, c, mn, smn, data_first):
+        """one program: la / load-by-name / li, then a store-by-name of the constant to the same element and a plain
+        load of it back through the address la produced"""
+        nonlocal evals
+        items = [Item("la", rd=5, var=d.name, idx=idx), Item("ldv", mn=mn, rd=6, var=d.name, idx=idx), Item("li", rd=7, c=c),
+                 Item("stv", mn=smn, rs1=7, var=d.name, idx=idx, rs2=9),
+                 Item("instr", mn={"sb": "lbu", "sh": "lhu", "sw": "lw"}[smn], fields={"rd": 8, "rs1": 5, "imm": 0})]
+        prog = Program(items, data, data_first=data_first, use_text_directive=True)
         table, mem = layout(data)
         text = render(prog, random.Random(rnd.getrandbits(32)))
         evals += 1
         seen.add((tuple(x.kind for x in data), d.kind, idx is None, prog.data_first))
+        x = [0] * 32
         try:
             s = load(text)
             bad = None
@@ -256,14 +256,53 @@ def run_c05(tier, seed):
                 bad = "%s %s[%s]: x6 = 0x%X, expected 0x%X" % (mn, d.name, idx, x[6], val)
             if not bad and x[7] != c % 2 ** 32:
                 bad = "li x7, %d leaves 0x%X" % (c, x[7])
+            sn = {"sb": 1, "sh": 2, "sw": 4}[smn]
+            if not bad and x[8] != (c % 2 ** 32) % 2 ** (8 * sn):
+                bad = "%s x7, %s[%s], x9 then a load from the element address: 0x%X, the stored value is 0x%X" % (smn, d.name, idx, x[8], (c % 2 ** 32) % 2 ** (8 * sn))
+            if not bad:
+                after = data_bytes(s)
+                for a in set(after) | set(mem):
+                    if not (ea <= a < ea + sn) and after.get(a, 0) != mem.get(a, 0):
+                        bad = "store by name to %s[%s] changed byte 0x%X outside the element" % (d.name, idx, a)
+                        break
         except Exception as e:
             bad = "%s: %s" % (type(e).__name__, str(e)[:100] or repr(e)[:100])
         if bad and len(viol) < 5:
             viol.append({"key": "C05:" + bad[:70], "what": bad, "text": text})
         elif not bad and len(samples) < 2:
             samples.append({"text": text, "x5_x6_x7": [hex(x[5]), hex(x[6]), hex(x[7])]})
+
+    # deterministic sweep: every kind of declaration behind every size class of predecessor (alignment), every
+    # element index of the accessed variable, both segment orders
+    firsts = [Data("byte", "p", values=[1] * k) for k in (1, 2, 3, 4, 5)] + [Data("half", "p", values=[0x1234] * k) for k in (1, 2, 3)] + \
+             [Data("string", "p", string="abcdefg"[:k]) for k in (0, 1, 2, 3, 4)] + [Data("word", "p", values=[7]), Data("zero", "p", n=1)]
+    seconds = [Data("byte", "q", values=[0x80, 0x7F, 3]), Data("half", "q", values=[0x8001, 2, 0xFFFF]), Data("word", "q", values=[0x80000001, 5]),
+               Data("string", "q", string="xyz"), Data("zero", "q", n=3)]
+    kcase = 0
+    for f in firsts:
+        for d in seconds:
+            for idx in [None] + list(range(n_elems(d))) + ([10, 12] if d.kind == "zero" else []):
+                if d.kind == "zero" and idx is not None and idx >= 3:
+                    continue
+                kcase += 1
+                tail = Data("word", "r", values=[0x11223344])
+                case([f, d, tail], d, idx, [0x12345678, -2, 0x800, 0xFFFFF800][kcase % 4], LOAD[kcase % len(LOAD)], STORE[kcase % len(STORE)] if d.kind != "string" else "sb", kcase % 2 == 0)
+    # indices with several digits
+    big = Data("byte", "big", values=list(range(1, 41)))
+    for idx in (9, 10, 11, 12, 19, 20, 21, 39):
+        case([Data("half", "p", values=[1]), big], big, idx, 0x5A, "lbu", "sb", idx % 2 == 0)
+    for it in range(1200 if tier == "quick" else 30000):
+        data = gen_data(rnd, rnd.randint(1, 5))
+        d = rnd.choice(data)
+        idx = rnd.choice([None, 0, rnd.randint(0, n_elems(d) - 1)])
+        c = rnd.choice([0, 2047, 2048, -2048, -2049, 0x7FFFF800, 0x80000000, 0xFFFFFFFF, 0xFFFFF800, rnd.randint(-2 ** 31, 2 ** 32 - 1),
+                        (rnd.randint(0, 2 ** 20 - 1) << 12) | rnd.choice([0, 0x7FF, 0x800, 0xFFF, rnd.randint(0, 4095)])])
+        mn = rnd.choice(LOAD)
+        # a store wider than the element would spill into the neighbour: use the element's own width (bytes for strings)
+        smn = {"byte": "sb", "half": rnd.choice(["sb", "sh"]), "word": rnd.choice(["sb", "sh", "sw"]), "string": "sb", "zero": rnd.choice(["sb", "sh", "sw"])}[d.kind]
+        case(data, d, idx, c, mn, smn, rnd.random() < 0.5)
     return {"evaluations": evals, "distinct_nontrivial": len(seen), "violations": viol, "samples": samples,
-            "rule": "random data segments (1..5 declarations of all five kinds, boundary/negative/over-wide values) in either segment order, each with la / load-by-name / li on a random variable, index and constant, executed in single-cycle mode; plus the documented example; distinct by (declaration kinds, accessed kind, index written?, segment order)",
+            "rule": "deterministic sweep (every declaration kind behind every size class of predecessor x every element index x both segment orders; multi-digit indices) and random data segments (1..5 declarations of all five kinds, boundary/negative/over-wide values, large reservations) in either segment order, each with la / load-by-name / li / store-by-name + read back on a variable, index and constant, executed in single-cycle mode; plus the documented example; distinct by (declaration kinds, accessed kind, index written?, segment order)",
             "bound": "<= 5 declarations, <= 5 elements each", "contract": "data memory == documented layout; la/load give the address/value of element i; li leaves c mod 2**32"}
 
 
